@@ -51,7 +51,7 @@ ALLOW_RAW = {
     "__cxa_pure_virtual": "noreturn abort",
 }
 ALLOW_DM = [
-    (r'^std::__cxx11::basic_string<char, std::char_traits<char>, std::allocator<char> ?>::(c_str|length|size|data|empty|operator\[\]|begin|end)\(.*\) const$',
+    (r'^std::__cxx11::basic_string<char, std::char_traits<char>, std::allocator<char> ?>::(c_str|length|size|data|empty|operator\[\]|begin|end|back|front|compare|find|rfind|find_first_of|find_last_of)\(.*\) const$',
      "const accessor of an already constructed std::string"),
     (r'^witness::', "user code of the witness application (methods called by rAction*), assumed realtime safe"),
 ]
